@@ -34,18 +34,27 @@ def s256(x):
 class Case:
     """one generated test function"""
 
-    def __init__(self, ch, allow_bytes=True):
+    def __init__(self, ch, allow_bytes=True, name="check_g", setup=None, light=False, store_forms=False):
         self.ch = ch
+        self.light = light
+        # (C20 only) the test first writes a mapping slot m[K] (base slot 1, K outside halmos' precomputed table) either
+        # through the literal hash constant or by hashing at run time, and a guard reads it back through either form
+        self.store_form = None
+        if store_forms and ch.chance(0.6, "c.sf"):
+            self.store_form = (ch.choose(["lit", "hash"], "c.sf.w"), ch.choose(["hash", "lit"], "c.sf.r"), ch.choose([0xDEAD, 0xBEEF], "c.sf.k"))
+        self.fname = name
         self.nstatic = ch.int(1, 3, "c.nstatic")
         self.has_bytes = allow_bytes and ch.chance(0.3, "c.bytes")
         self.types = ["uint256"] * self.nstatic + (["bytes"] if self.has_bytes else [])
         self.names = [f"a{i}" for i in range(self.nstatic)] + (["bs"] if self.has_bytes else [])
-        self.sig = "check_g(" + ",".join(self.types) + ")"
+        self.sig = name + "(" + ",".join(self.types) + ")"
         self.setup_value = ch.choose([None, 0, 7, 1 << 200], "c.setup")
         # symbolic setUp: slot 0 holds svm.createUint256("s") constrained to s > 5, and a second symbol t < 100 is
         # created and constrained but never stored (a setUp constraint unrelated to the state)
         self.setup_sym = self.setup_value not in (None, 0) and ch.chance(0.4, "c.setupsym")
         self.wt = ch.choose([0, 7, 99], "c.wt")
+        if setup is not None:  # several tests of one contract share the setUp
+            self.setup_value, self.setup_sym, self.wt = setup
         self.reachable = not ch.chance(0.4, "c.unreach")
         # witness
         self.w = [self._wval(f"c.w{i}") for i in range(self.nstatic)]
@@ -84,12 +93,13 @@ class Case:
         j = ch.pick(self.nstatic, lbl + ".j")
         kinds = ["eq", "lt", "gt", "addeq", "and", "muleq", "diveq", "modeq", "xor", "slt"] * 3
         # two-operand division / modular forms are costly for the real solver (wall-clock limited): kept rarer
-        kinds += ["mod2", "smod2", "sdiv2", "addmod3", "mulmod3", "exp2"]
+        if not self.light:
+            kinds += ["mod2", "smod2", "sdiv2", "addmod3", "mulmod3", "exp2"]
         if self.nstatic >= 2:
-            kinds += ["mul2", "div2", "lt2"]
+            kinds += ["lt2"] if self.light else ["mul2", "div2", "lt2"]
         kinds += ["hasheq"]
         if self.setup_value is not None:
-            kinds += ["state"]
+            kinds += ["state", "stateconst"]
         if self.has_bytes:
             kinds += ["len", "bword"]
         k = ch.choose(kinds, lbl + ".k")
@@ -165,6 +175,8 @@ class Case:
             return ("hasheq", i, int.from_bytes(keccak256(w[i].to_bytes(32, "big")), "big"))
         if k == "state":
             return ("state_eq", i) if w[i] == self.setup_value else ("state_ne", i)
+        if k == "stateconst":
+            return ("stateconst", self.setup_value)  # require(stored value == constant)
         if k == "len":
             return ("len", self.wlen)
         if k == "bword":
@@ -178,6 +190,8 @@ class Case:
         ch = self.ch
         i = ch.pick(self.nstatic, lbl + ".i")
         base = ["eq2", "parity", "range", "mulparity", "divzero", "modzero", "smodzero", "sdivzero", "addmodzero", "mulmodzero"]
+        if self.light:
+            base = ["eq2", "parity", "range", "mulparity"]
         k = ch.choose(base + (["lenbad"] if self.has_bytes else []), lbl + ".k")
         if k in ("mulparity", "divzero", "modzero", "smodzero", "sdivzero", "addmodzero", "mulmodzero"):
             self.uses_abstraction = True
@@ -246,6 +260,8 @@ class Case:
             self._arg(a, g[1]); a.push(0).op("MSTORE"); a.push(0x20).push(0).op("SHA3"); a.push(g[2]); cmp_jump("EQ")
         elif k == "state_eq":
             a.push(0).op("SLOAD"); self._arg(a, g[1]); cmp_jump("EQ")
+        elif k == "stateconst":
+            a.push(0).op("SLOAD"); a.push(g[1]); cmp_jump("EQ")
         elif k == "state_ne":
             a.push(0).op("SLOAD"); self._arg(a, g[1]); cmp_jump("EQ", invert=True)
         elif k == "len":
@@ -318,8 +334,18 @@ class Case:
             a.op("STOP")
 
     def build(self):
+        def slot_form(a, form, key):
+            if form == "lit":
+                a.push(int.from_bytes(keccak256(key.to_bytes(32, "big") + (1).to_bytes(32, "big")), "big"))
+            else:
+                a.push(key).push(0).op("MSTORE").push(1).push(0x20).op("MSTORE").push(0x40).push(0).op("SHA3")
+
         def body(a):
             fail = a.fresh("other")
+            if self.store_form:
+                wform, rform, key = self.store_form
+                a.push(0x77); slot_form(a, wform, key); a.op("SSTORE")
+                slot_form(a, rform, key); a.op("SLOAD"); a.push(0x77).op("EQ").op("ISZERO").jumpi(fail)
             for g in self.guards:
                 self.emit_guard(a, g, fail)
             self.emit_leaf(a)
@@ -352,6 +378,7 @@ class Case:
             a.label(bad)
             a.push(0).push(0).op("REVERT")
 
+        self.emit_body, self.emit_helper, self.emit_setup = body, helper, setup
         fns = {self.sig: body, "helper()": helper}
         abis = [A.abi_item(self.sig, self.names), A.abi_item("helper()")]
         if self.setup_value is not None:
